@@ -102,6 +102,11 @@ def run(w: World, rep: Report):
                   line=outside[0].lineno if outside else tr.lineno,
                   why='' if not outside else
                   f'statement outside the try can raise: `{ast.unparse(outside[0])[:70]}`')
+        nested = [n for n in ast.walk(tr) if isinstance(n, ast.Try) and n is not tr]
+        rep.check('C01.R2', 'functions.run_auth_scripts|no-inner-try', not nested, file=rel,
+                  line=nested[0].lineno if nested else tr.lineno,
+                  why='' if not nested else 'an inner try inside the protected region can swallow the error of a script: '
+                  'the run would continue (and may return True) although a script raised')
         else_bad = [s for s in tr.orelse if _stmt_may_raise(s)]
         rep.check('C01.R2', 'functions.run_auth_scripts|try-else', not else_bad, file=rel,
                   line=else_bad[0].lineno if else_bad else tr.lineno,
